@@ -218,14 +218,12 @@ func c15DeclHTTP(s c15Site) bool {
 }
 func c15TLSOn(t *c15TLS) bool { return t != nil && !(t.Arg == "a1" && t.Val == "off") }
 
-// c15PipeSig: the class of a site set.  The two classes named here are the ones in which the
-// unchanged tree violates the property (see known findings); everything else is "pipe".
+// c15PipeSig: the class of a site set.  Two classes are named: the one in which the unchanged
+// tree still violates the property (F-C15-2, open: see known findings) and the one of F-C15-1
+// (fixed in casket; the class keeps its name so that a regression is reported under it).  The open
+// class is tested first: a site set that belongs to both is reported under the open finding.
+// Everything else is "pipe".
 func c15PipeSig(sites []c15Site, obsA []c15Obs) string {
-	for _, s := range sites {
-		if c15DeclHTTP(s) && c15TLSOn(s.TLS) && !s.TLS.NoRedirect {
-			return "pipe:tls-directive-on-explicit-http-site"
-		}
-	}
 	// a TLS site on a port other than 443 whose same-host sibling on :443 is itself not eligible for a
 	// redirect (TLS not enabled there, or no_redirect): judged on the site list after the callback stages
 	for i := range sites {
@@ -238,6 +236,11 @@ func c15PipeSig(sites []c15Site, obsA []c15Obs) string {
 			if i != j && o.Host == s.Host && o.Port == "443" && (!o.Enabled || o.NoRedirect) {
 				return "pipe:alt-port-tls-site-with-ineligible-443-sibling"
 			}
+		}
+	}
+	for _, s := range sites {
+		if c15DeclHTTP(s) && c15TLSOn(s.TLS) && !s.TLS.NoRedirect {
+			return "pipe:tls-directive-on-explicit-http-site"
 		}
 	}
 	return "pipe"
@@ -560,7 +563,7 @@ func c15GenSite(r *Rand, pool []string) c15Site {
 		s.Bind = r.Pick(c15Binds)
 	}
 	s.TLS = c15GenTLS(r)
-	// a tls directive on an explicitly-HTTP declaration is a known defect class: keep it to a few percent
+	// a tls directive on an explicitly-HTTP declaration (the class of F-C15-1) is kept to a few percent
 	if c15DeclHTTP(s) && c15TLSOn(s.TLS) && !r.Chance(12) {
 		if r.Bool() {
 			s.TLS = nil
